@@ -183,44 +183,51 @@ func (ph *ParseHandler) ParseAll(b []byte) (int, error) {
 
 		switch op {
 		case CATCH:
-			r, n, m, bb, err := ParseCatch(b)
+			r, n, m, bb, perr := ParseCatch(b)
 			b = bb
+			err = perr
 			if err == nil {
 				err = ph.Catch(r, n, m)
 			}
 		case CROAK:
-			n, m, bb, err := ParseCroak(b)
+			n, m, bb, perr := ParseCroak(b)
 			b = bb
+			err = perr
 			if err == nil {
 				err = ph.Croak(n, m)
 			}
 		case LOAD:
-			r, n, bb, err := ParseLoad(b)
+			r, n, bb, perr := ParseLoad(b)
 			b = bb
+			err = perr
 			if err == nil {
 				err = ph.Load(r, n)
 			}
 		case RELOAD:
-			r, bb, err := ParseReload(b)
+			r, bb, perr := ParseReload(b)
 			b = bb
+			err = perr
 			if err == nil {
 				err = ph.Reload(r)
 			}
 		case MAP:
-			r, bb, err := ParseMap(b)
+			r, bb, perr := ParseMap(b)
 			b = bb
+			err = perr
 			if err == nil {
 				err = ph.Map(r)
 			}
 		case MOVE:
-			r, bb, err := ParseMove(b)
+			r, bb, perr := ParseMove(b)
 			b = bb
+			err = perr
 			if err == nil {
 				err = ph.Move(r)
 			}
 		case INCMP:
-			r, v, bb, err := ParseInCmp(b)
+			r, v, bb, perr := ParseInCmp(b)
 			b = bb
+			err = perr
 			if err == nil {
 				err = ph.InCmp(r, v)
 			}
@@ -235,20 +242,23 @@ func (ph *ParseHandler) ParseAll(b []byte) (int, error) {
 				err = ph.MSink()
 			}
 		case MOUT:
-			r, v, bb, err := ParseMOut(b)
+			r, v, bb, perr := ParseMOut(b)
 			b = bb
+			err = perr
 			if err == nil {
 				err = ph.MOut(r, v)
 			}
 		case MNEXT:
-			r, v, bb, err := ParseMNext(b)
+			r, v, bb, perr := ParseMNext(b)
 			b = bb
+			err = perr
 			if err == nil {
 				err = ph.MNext(r, v)
 			}
 		case MPREV:
-			r, v, bb, err := ParseMPrev(b)
+			r, v, bb, perr := ParseMPrev(b)
 			b = bb
+			err = perr
 			if err == nil {
 				err = ph.MPrev(r, v)
 			}
